@@ -24,7 +24,7 @@ TRUSTED in addition to stage 1 (see the generated header):
     are dropped; the message text of exceptions is dropped, the class and the error code are kept.
 Anything else: `-- UNTRANSLATABLE <name>: <reason>`.
 """
-import copy, re
+import copy, os, re
 import cxx2lean as C
 from cxx2lean import Ty, Val, fail, kids, walk, BOOL, INTS, as_prop, as_bool, convert, lean_ident, need_type, Untranslatable
 
@@ -134,8 +134,7 @@ def EFF_SPECS():
         Spec("DoPollUninterrupted", "wait.cpp", "DoPollUninterrupted", "DoPollUninterrupted",
              [("pfds", D), ("count", D), ("timeout", MS)], I32,
              needs=("ToMsec", "DeadlineLimited_deadline", "DeadlineLimited_Remaining")),
-        Spec("Wait", "wait.cpp", "sockpuppet::(anonymous namespace)::Wait", "Wait",
-             [("fd", D), ("events", D), ("timeout", MS)], BOOL),
+        # (the file-local `Wait(SOCKET, short, Duration)` and any other helper of the translation unit are inlined)
         Spec("WaitPfds", "wait.cpp", "sockpuppet::Wait", "Wait", [("pfds", D), ("timeout", MS)], BOOL),   # the driver's wait
         Spec("WaitReadable", "wait.cpp", "WaitReadable", "WaitReadable", [("fd", D), ("timeout", MS)], BOOL),
         Spec("WaitWritable", "wait.cpp", "WaitWritable", "WaitWritable", [("fd", D), ("timeout", MS)], BOOL),
@@ -155,13 +154,7 @@ def EFF_SPECS():
              world="QueueWorld"),
         # the enqueue side: SocketAsyncImpl::Send / SendTo -> DoSend<Queue> -> DoSendEnqueue<Queue> (instantiations told
         # apart by their number of parameters)
-        Spec("DoSendEnqueue_Tcp", "socket_async_impl.cpp", "SocketAsyncImpl::DoSend", "DoSendEnqueue",
-             [("promise", D), ("args", D)], BOOL, world="QueueWorld"),
-        Spec("DoSendEnqueue_Udp", "socket_async_impl.cpp", "SocketAsyncImpl::DoSend", "DoSendEnqueue",
-             [("promise", D), ("args", D), ("args", D)], BOOL, world="QueueWorld"),
-        Spec("DoSend_Tcp", "socket_async_impl.cpp", "SocketAsyncImpl::DoSend", "DoSend", [("args", D)], VOID, world="QueueWorld"),
-        Spec("DoSend_Udp", "socket_async_impl.cpp", "SocketAsyncImpl::DoSend", "DoSend", [("args", D), ("args", D)], VOID,
-             world="QueueWorld"),
+        # (`DoSend<Queue>` and `DoSendEnqueue<Queue>` are inlined into these two)
         Spec("AsyncSend", "socket_async_impl.cpp", "SocketAsyncImpl::Send", "Send", [("buffer", D)], VOID, world="QueueWorld"),
         Spec("AsyncSendTo", "socket_async_impl.cpp", "SocketAsyncImpl::Send", "SendTo", [("buffer", D), ("dstAddr", D)], VOID,
              world="QueueWorld"),
@@ -238,6 +231,7 @@ class EFn(C.Fn):
         self.nloops = 0
         self.params_lean = []             # [(lean name, lean type)] of the function itself
         self.depends = set()
+        self.inline_depth = 0
         self.locked = False
         self.cur_pad = "  "
         self.wbase = "W" if spec.world == "World" else "W.toWorld"
@@ -364,9 +358,171 @@ class EFn(C.Fn):
                 t = self.call_target(x)
                 if t and t[0] in ("world", "eff"):
                     return True
+                if t is None and not self.todo_call(x) and self.helper_def(x):
+                    return True
             if k == "CXXMemberCallExpr" and kids(x) and kids(x)[0].get("name") == "Tick":
                 return True
         return False
+
+    # ---- helper functions of the same translation unit: inlined --------------------
+    STOP = set("""move forward get make_unique make_shared make_exception_ptr duration_cast min max clamp exchange
+        rethrow_exception begin end find_if swap to_string memcmp memcpy strlen size data""".split())
+    _helper_cache = {}
+
+    def helper_def(self, n):
+        """the definition (in this repository's sources) of the function a call refers to, when it is not a known world
+        operation / translated function: (FunctionDecl node, file) or None"""
+        kind = n.get("kind")
+        if kind == "CallExpr":
+            try:
+                name, dk, ref = self.callee(n)
+            except Untranslatable:
+                return None
+            rtype = ((ref.get("referencedDecl") or {}).get("type") or {}).get("qualType")
+            src = re.sub(r"\s+", "", self.source_text(ref) or "")
+            if src.startswith("std::") or src.startswith("::") or not src:
+                return None
+            nargs = len(kids(n)) - 1
+        elif kind == "CXXMemberCallExpr":
+            me = kids(n)[0]
+            if me.get("kind") != "MemberExpr" or not kids(me) or C._strip(kids(me)[0]).get("kind") != "CXXThisExpr":
+                return None
+            name, rtype, nargs = me.get("name"), None, len(kids(n)) - 1
+        else:
+            return None
+        if not name or name in self.STOP or not re.match(r"^[A-Za-z_]\w*$", name):
+            return None
+        key = (self.repo, self.spec_e.src, name, nargs, rtype)
+        if key in EFn._helper_cache:
+            return EFn._helper_cache[key]
+        res = None
+        try:
+            docs = C.ast_docs(self.repo, self.spec_e.src, name)
+            found = {}
+            for d in docs:
+                for x in walk(d):
+                    if x.get("kind") in ("FunctionDecl", "CXXMethodDecl") and x.get("name") == name and C.body_of(x) is not None:
+                        pv = [c for c in kids(x) if c["kind"] == "ParmVarDecl"]
+                        if len(pv) != nargs or any("..." in ((c.get("type") or {}).get("qualType") or "") for c in pv):
+                            continue
+                        if rtype is not None and (x.get("type") or {}).get("qualType") != rtype:
+                            continue
+                        f = C._file_of(self.repo, docs, x, self.spec_e.src)
+                        if not os.path.abspath(f or "").startswith(os.path.abspath(self.repo) + os.sep):
+                            continue
+                        found[x.get("id")] = (x, f)
+            if len(found) == 1:
+                res = list(found.values())[0]
+        except Untranslatable:
+            res = None
+        EFn._helper_cache[key] = res
+        return res
+
+    def inline_call(self, n, k):
+        """a call of a helper function of the same translation unit: its body, with the arguments bound to its
+        parameters, translated in place; `return v` continues with k(v)"""
+        fn, ffile = self.helper_def(n)
+        args = kids(n)[1:]
+        pv = [c for c in kids(fn) if c["kind"] == "ParmVarDecl"]
+        if fn.get("id") in self.inlining:
+            fail("recursive helper `%s`" % fn.get("name"))
+        for x in walk(C.body_of(fn)):
+            if x.get("kind") in ("DoStmt", "WhileStmt", "ForStmt", "CXXTryStmt", "LambdaExpr"):
+                fail("helper `%s` contains a %s" % (fn.get("name"), x["kind"]))
+        benv = {}
+        lets = []
+
+        def bind(i):
+            if i == len(pv):
+                return self.inline(fn, ffile, benv, k, lets)
+            p, a = pv[i], args[i]
+            a0 = C._strip(a)
+            while a0["kind"] in ("ImplicitCastExpr", "CXXConstructExpr", "CXXBindTemporaryExpr") and len(kids(a0)) == 1:
+                a0 = C._strip(kids(a0)[0])
+            sp = self.bind_special(p, a0)
+            if sp is not None:
+                benv[p["id"]] = sp
+                return bind(i + 1)
+            t = ptype(p.get("type"))
+            if a0["kind"] == "StringLiteral" or t == DROPT or (a0["kind"] == "UnaryOperator" and a0.get("opcode") == "&"):
+                benv[p["id"]] = "drop"
+                return bind(i + 1)
+            if a0["kind"] == "DeclRefExpr":
+                b = self.env.get(a0.get("referencedDecl", {}).get("id"))
+                if isinstance(b, (str, tuple)) and b != "uninit":
+                    benv[p["id"]] = b                 # a handle travels on as the same handle
+                    return bind(i + 1)
+                if isinstance(b, (SvVal, ObjVal)):
+                    if "&" in ((p.get("type") or {}).get("qualType") or "") and isinstance(b, ObjVal):
+                        fail("helper `%s` takes an object by reference" % fn.get("name"))
+                    benv[p["id"]] = b
+                    return bind(i + 1)
+            if t is None:
+                benv[p["id"]] = "drop"                # a value of a type outside the subset only travels
+                if self.is_eff(a):
+                    fail("effectful argument of a type outside the subset")
+                return bind(i + 1)
+
+            def got(v):
+                if v.ty != t:
+                    if t.kind == "int" and v.ty.kind in ("int", "bool"):
+                        v = convert(v, t)
+                    elif t.kind in ("dur", "tp") and v.ty.kind == t.kind:
+                        v = Val(C.Chrono.to_period(v, t), t)
+                    else:
+                        fail("argument %d of `%s` has type %r, parameter %r" % (i, fn.get("name"), v.ty, t))
+                nm = self.fresh(p.get("name") or "arg")
+                lets.append("%slet %s : %s := %s\n" % (self.cur_pad, nm, lean_ty(v.ty), as_bool(v) if v.ty == BOOL else v.s))
+                benv[p["id"]] = Val(nm, v.ty)
+                return bind(i + 1)
+            return self.ex(a, got)
+        if len(pv) != len(args):
+            fail("helper `%s`: %d parameters, %d arguments" % (fn.get("name"), len(pv), len(args)))
+        return bind(0)
+
+    inlining = ()
+
+    def bind_special(self, p, a0):
+        return None
+
+    def inline(self, fn, ffile, benv, k, lets):
+        if self.inline_depth > 4:
+            fail("inlining too deep")
+        for x in walk(C.body_of(fn)):
+            if x.get("kind") in ("BinaryOperator", "CompoundAssignOperator") and x.get("opcode", "=") in ("=", "+=", "-=", "|=", "&="):
+                l = C._strip(kids(x)[0])
+                if l["kind"] == "DeclRefExpr" and l.get("referencedDecl", {}).get("id") in benv:
+                    fail("helper `%s` assigns its parameter" % fn.get("name"))
+        saved_env, saved_dt, saved_file, saved_parm = self.env, self.decl_ty, self.file, self.parm
+        saved_locked = self.locked
+        self.locked = False
+        self.env = dict(benv)
+        self.decl_ty = dict(self.decl_ty)
+        for pid, b in benv.items():
+            if isinstance(b, Val):
+                self.decl_ty[pid] = b.ty
+        self.file = ffile
+        self.inline_depth += 1
+        self.inlining = tuple(self.inlining) + (fn.get("id"),)
+        pre = "".join(lets)
+        del lets[:]
+        try:
+            def done(v):
+                ie, idt, ifile, il = self.env, self.decl_ty, self.file, self.locked
+                self.env, self.decl_ty, self.file, self.locked = saved_env, saved_dt, saved_file, saved_locked
+                try:
+                    return k(v)
+                finally:
+                    self.env, self.decl_ty, self.file, self.locked = ie, idt, ifile, il
+            ends = (lambda ind: done(Val("()", VOID))) if "void" == ((fn.get("type") or {}).get("qualType") or "").split("(")[0].strip() \
+                else (lambda ind: fail("helper `%s` ends without a return" % fn.get("name")))
+            ctx = {"end": ends, "ret_k": done}
+            return pre + self.st([C.body_of(fn)], ctx, max(1, len(self.cur_pad) // 2))
+        finally:
+            self.inline_depth -= 1
+            self.inlining = self.inlining[:-1]
+            self.env, self.decl_ty, self.file, self.parm = saved_env, saved_dt, saved_file, saved_parm
+            self.locked = saved_locked
 
     # ---- pure expressions (environment aware) -----------------------------
     def lookup(self, n):
@@ -376,7 +532,7 @@ class EFn(C.Fn):
             fail("reference to %s `%s` is outside the subset" % (rd.get("kind"), rd.get("name")))
         if b == "uninit":
             fail("`%s` is read before it is assigned" % rd.get("name"))
-        if b in ("drop", "frontref", "taskref", "queue", "caught", "driverptr") or isinstance(b, tuple):
+        if b in ("drop", "frontref", "taskref", "queue", "caught", "driverptr", "frontelem") or isinstance(b, tuple):
             fail("`%s` (a handle that is not modelled) is used as a value" % rd.get("name"))
         return b
 
@@ -559,6 +715,8 @@ class EFn(C.Fn):
                 self.env["tmp:" + holder] = v
                 return k(self.expr(n2))
             return self.ex(ks[idx], with_val)
+        if kind in ("CallExpr", "CXXMemberCallExpr") and self.call_target(n) is None and self.helper_def(n):
+            return self.inline_call(n, k)
         if kind == "CallExpr" or (kind == "CXXMemberCallExpr" and self.call_target(n)):
             t = self.call_target(n)
             if t is None:
@@ -661,12 +819,47 @@ class EFn(C.Fn):
         s, rest = ss[0], ss[1:]
         k = s["kind"]
         nxt = lambda: self.st(rest, ctx, ind)
+        if k == "CompoundStmt" and self.spec_e.world == "QueueWorld" and any(
+                c["kind"] == "DeclStmt" and kids(c) and "lock_guard" in ((kids(c)[0].get("type") or {}).get("qualType") or "")
+                for c in kids(s)):
+            # a block with its own lock guard: the lock is released where the block ends (and at a `return` inside)
+            saved_locked = self.locked
+            self.locked = False
+
+            def end_block(ind2):
+                held = self.locked
+                self.locked = saved_locked
+                try:
+                    tail = self.st(rest, ctx, ind2)
+                finally:
+                    self.locked = held
+                return ("%sM.bind (W.unlock) fun _ =>\n" % ("  " * ind2) if held else "") + tail
+            inner = dict(ctx)
+            inner["end"] = end_block
+            try:
+                return self.st(kids(s), inner, ind)
+            finally:
+                self.locked = saved_locked
         if k == "CompoundStmt":
             return self.st(kids(s) + rest, ctx, ind)
         if k == "NullStmt" or C._is_assert(s) or C._is_noop_call(s):
             return nxt()
         if k in C.STRIP and C._strip(s)["kind"] == "CXXThrowExpr" or k == "CXXThrowExpr":
             return self.throw(C._strip(s), pad)
+        if k == "ReturnStmt" and ctx.get("ret_k"):
+            # inside an inlined helper: `return v` continues the caller with v
+            def leave(v):
+                # a lock_guard of the helper's own scope is released when it returns (after the value is computed)
+                if not self.locked:
+                    return ctx["ret_k"](v)
+                self.locked = False
+                try:
+                    return "%sM.bind (W.unlock) fun _ =>\n%s" % (pad, ctx["ret_k"](v))
+                finally:
+                    self.locked = True
+            if not kids(s) or self.dropped_value(kids(s)[0]):
+                return leave(Val("()", VOID))
+            return self.ex(kids(s)[0], leave)
         if k == "ReturnStmt":
             wrap = "(some %s)" if ctx.get("in_try") else "(%s)"
             unl = ("%sM.bind (W.unlock) fun _ =>\n" % pad) if self.locked else ""       # ~lock_guard after the value is computed
@@ -749,6 +942,14 @@ class EFn(C.Fn):
             return self.ex(e, lambda v: nxt())
         fail("statement kind %s is outside the subset" % k)
 
+    def dropped_value(self, e):
+        """an expression that only names a handle which is not modelled (a `std::future`, a `std::promise`, ...)"""
+        e = C._strip(e)
+        while e["kind"] in ("ImplicitCastExpr", "CXXConstructExpr", "CXXBindTemporaryExpr", "CallExpr") and \
+                (len(kids(e)) == 1 or (e["kind"] == "CallExpr" and len(kids(e)) == 2 and C.canon(kids(e)[0]) == "move")):
+            e = C._strip(kids(e)[-1])
+        return e["kind"] == "DeclRefExpr" and self.env.get(e.get("referencedDecl", {}).get("id")) == "drop"
+
     def try_(self, s, rest, ctx, ind):
         """`try B catch(X const &e) H` rest: B and H yield `some v` when they `return v` and `none` when they fall
         through; the statements after the try are NOT inside it.  Neither B nor H may assign a local of the function."""
@@ -807,6 +1008,20 @@ class EFn(C.Fn):
             if txt == "get(sendQ)" and "&" in ty:
                 self.env[did] = "queue"
                 return nxt()
+            # the front element and its fields named one by one instead of by a structured binding:
+            # `Elem &front = q.front(); T &x = std::get<N>(front);`
+            if "&" in ty and txt == "q.front()" and all(
+                    self.env.get(x.get("referencedDecl", {}).get("id")) == "queue" for x in walk(inits[-1])
+                    if x.get("kind") == "DeclRefExpr" and x.get("referencedDecl", {}).get("name") == "q"):
+                self.env[did] = "frontelem"
+                return nxt()
+            if "&" in ty and re.match(r"^get\(\w+\)$", txt):
+                refs = [x.get("referencedDecl", {}).get("id") for x in walk(inits[-1]) if x.get("kind") == "DeclRefExpr"
+                        and x.get("referencedDecl", {}).get("kind") == "VarDecl"]
+                m = re.search(r"std::get<(\d+)>\(", re.sub(r"\s+", "", self.source_text(inits[-1]) or ""))
+                if len(refs) == 1 and self.env.get(refs[0]) == "frontelem" and m:
+                    self.env[did] = ("binding", int(m.group(1)))
+                    return nxt()
         if self.spec_e.world == "TodoWorld" and inits:
             txt = C.canon(inits[-1])
             if txt == "todos.front()" and "&" in ((d.get("type") or {}).get("qualType") or ""):
@@ -953,6 +1168,8 @@ class EFn(C.Fn):
         return []
 
     def loop(self, s, rest, ctx, ind):
+        if ctx.get("ret_k"):
+            fail("a loop inside an inlined helper function")
         pad = "  " * ind
         k = s["kind"]
         parts = kids(s)
@@ -1209,6 +1426,7 @@ def translate(repo, available, ast_of):
     `ast_of(src, flt)` -> (docs, error)"""
     out = []
     avail = set(available)
+    EFn._helper_cache.clear()        # the tree may have changed since the last call in this process
     for name, src, flt in PRELUDE_DEFS:
         docs, err = ast_of(src, flt)
         try:
